@@ -331,6 +331,11 @@ def stdlib_axioms(formulas):
     return ax
 
 
+def _install_loops():
+    from . import loops
+    loops.install(FullIntrinsics)
+
+
 class FullIntrinsics(bs.Intrinsics, StdlibMixin):
     def value_attr(self, eng, st, obj, name):
         if isinstance(obj, FileV):
@@ -386,3 +391,6 @@ class FullIntrinsics(bs.Intrinsics, StdlibMixin):
         if isinstance(obj, Z) and obj.hint == "zarr-dataset-read":
             return [(st, Z(obj.meta["content"], None, {"plain": True, "fresh_container": True}))]
         return bs.Intrinsics.plain_getitem(self, st, obj, key)
+
+
+_install_loops()
